@@ -8,7 +8,7 @@ exceeds the count and is reported), `reason` (why the site cannot panic) and opt
 is void and the site is reported).
 """
 
-ENUM = "some(Iterator::next(var:Enumerate<*>)).0"
+ENUM = "try(Iterator::next(var:Enumerate<*>)).0"
 
 EXCEPTIONS = [
     # ---- builder ---------------------------------------------------------------------------
@@ -45,7 +45,7 @@ EXCEPTIONS = [
     # ---- encoder ----------------------------------------------------------------------------------
     dict(fn="encoder::encode_rmi", what="index", desc="BitView::view_bits(arg2)[RangeTo{end:Add(1,var:usize)}]", count=1,
          reason="last is an enumerate() index over the bits of data, and encode_rmi is only called with the non-empty buffer a range bit was just written to (C07.R2), so last + 1 <= bits.len()", requires=["C07.R2"]),
-    dict(fn="encoder::encode_rmi", what="bitload", desc="BitField::load(some(Iterator::next(var:Chunks<*>)))", count=1,
+    dict(fn="encoder::encode_rmi", what="bitload", desc="BitField::load(try(Iterator::next(var:Chunks<*>)))", count=1,
          reason="chunks(6) yields non-empty chunks of at most 6 bits; load::<u8> accepts 1..=8 bits"),
     dict(fn="encoder::encode_rmi::encode_byte", what="panic", desc="panicking::begin_panic('invalid byte')", count=1,
          reason="the argument is a load of at most 6 bits (< 64); the match covers 0..=63 (C07.R6 checks the table over all 256 values)", requires=["C07.R6"]),
@@ -69,7 +69,7 @@ EXCEPTIONS = [
          reason="the cached column belongs to a token later in the sorted token list on the same line (the cache is reused only under dst_line equality), so it is >= this token's column (C04.R1-R3, C17.R2)",
          requires=["C04.R1", "C04.R2", "C17.R2"]),
     dict(fn="<sourceview::RevTokenIter<'view, 'map> as core::iter::traits::iterator::Iterator>::next", what="Overflow:Sub:usize",
-         desc="var:usize,char::len_utf8(some(Iterator::next(var:Rev<Chars>)))", count=1,
+         desc="var:usize,char::len_utf8(try(Iterator::next(var:Rev<Chars>)))", count=1,
          reason="new_offset starts at last_byte_offset and the chars walked are exactly those of line[..last_byte_offset]; their lengths sum to at most last_byte_offset", requires=["C17.R2"]),
     dict(fn="<sourceview::Lines<'a> as core::iter::traits::iterator::Iterator>::next", what="Overflow:Add:u32", desc="arg1.idx,1", count=1,
          reason="idx is incremented only after get_line(idx) returned a line; a text has fewer than 2^32 lines (assumption: inputs below 4 GiB)"),
@@ -85,7 +85,7 @@ EXCEPTIONS = [
     dict(fn="sourceview::SourceView::get_line", what="index", desc="str::as_bytes(arg1.source)[RangeFrom{*}][RangeTo{end:var:usize}]", count=1,
          reason="idx is the position() result over rest (< rest.len())", requires=["C15.R1"]),
     # ---- token iterators --------------------------------------------------------------------------------------
-    dict(fn="types::TokenIter::<'_>::seek", what="Overflow:Add:usize", desc="some(SourceMap::lookup_token(arg1.i,arg2,arg3)).idx,1", count=1,
+    dict(fn="types::TokenIter::<'_>::seek", what="Overflow:Add:usize", desc="try(SourceMap::lookup_token(arg1.i,arg2,arg3)).idx,1", count=1,
          reason="Token.idx is an index or insertion index into tokens (<= tokens.len() <= 2^56)"),
     dict(fn="<types::TokenIter<'a> as core::iter::traits::iterator::Iterator>::next::{closure#0}", what="Overflow:Add:usize", desc="^arg1.next_idx,1", count=1,
          reason="incremented only after get_token(next_idx) returned Some, so next_idx < tokens.len()"),
@@ -106,13 +106,13 @@ EXCEPTIONS = [
     dict(fn="types::SourceMapIndex::lookup_token", what="Overflow:Sub:u32", desc="arg3,SourceMapSection::get_offset(*).1", count=1,
          reason="evaluated only on the line == off_line branch (C08.R1), where the lexicographic bound gives off_col <= col (sections sorted: C08.R5)", requires=["C04.R4", "C08.R1", "C08.R5"]),
     # ---- utils ------------------------------------------------------------------------------------------------------
-    dict(fn="utils::split_path", what="index", desc="arg1[Range{start:var:usize,end:some(Iterator::next(var:MatchIndices<*>)).0}]", count=1,
+    dict(fn="utils::split_path", what="index", desc="arg1[Range{start:var:usize,end:try(Iterator::next(var:MatchIndices<*>)).0}]", count=1,
          reason="last_idx is 0 or an earlier match index, idx is a later match index of the same string: both are char boundaries with last_idx <= idx <= len"),
     dict(fn="utils::split_path", what="index", desc="arg1[RangeFrom{start:var:usize}]", count=1,
          reason="last_idx is 0 or a match index (< len, char boundary)"),
-    dict(fn="utils::find_common_prefix_of_sorted_vec", what="index", desc="arg1[0][RangeToInclusive{end:some(var:Option<usize>)}]", count=1,
+    dict(fn="utils::find_common_prefix_of_sorted_vec", what="index", desc="arg1[0][RangeToInclusive{end:try(var:Option<usize>)}]", count=1,
          reason="max_idx is an enumerate() index over `shortest` = items[0] (the slice being indexed)"),
-    dict(fn="utils::greatest_lower_bound", what="Bounds", desc="PtrMetadata(arg1)[some(Iterator::next(var:Rev<Range<usize>>))]", count=1,
+    dict(fn="utils::greatest_lower_bound", what="Bounds", desc="PtrMetadata(arg1)[try(Iterator::next(var:Rev<Range<usize>>))]", count=1,
          reason="i ranges over 0..idx where idx is the Ok index of binary_search (< len)", requires=["C04.R4"]),
     # ---- vlq -----------------------------------------------------------------------------------------------------------
     dict(fn="vlq::parse_vlq_segment_into", what="Overflow:Add:i64", desc="var:i64,try(Option::ok_or(i64::checked_shl(BitAnd(31,*),var:u32),Error::VlqOverflow{}))", count=1,
